@@ -241,3 +241,10 @@ package decoder
 //@ contract (decoder.Reference).CompletionAtPos (ref, ctx, pos) (result)
 //@   assert before (reference.Targets).MatchWalk#1 : [C02,C06] arg5.Start.Byte <= arg5.End.Byte && arg5.End.Byte == pos.Byte
 //@   assert before (reference.Targets).MatchWalk#2 : [C02,C06] arg5.Start.Byte <= arg5.End.Byte && arg5.Start.Byte <= pos.Byte && pos.Byte <= arg5.End.Byte
+
+// ---- order of results (C10, C13, C14): the functions that promise source order return the very slice
+// ---- their last sort call sorted (the comparators are under contract above).
+//@ returns-sorted (*decoder.PathDecoder).SemanticTokensInFile C13
+//@ returns-sorted (*decoder.PathDecoder).CollectReferenceOrigins C10
+//@ returns-sorted (*decoder.PathDecoder).symbolsForBody C14
+//@ returns-sorted (*decoder.Decoder).ReferenceOriginsTargetingPos C11
